@@ -113,6 +113,7 @@ type hworld struct {
 	hist     []string
 	draining bool
 	topicSeen bool
+	restarts  int
 }
 
 func (h *hworld) bad(clause, format string, a ...interface{}) {
@@ -207,6 +208,9 @@ func (h *hworld) Menu() []string {
 		if h.cfg.Admin {
 			m = append(m, "empty_t")
 		}
+	}
+	if h.cfg.Restart && h.restarts == 0 && len(h.hist) > 0 {
+		m = append(m, "restart")
 	}
 	m = append(m, "adv:600", "adv:1100")
 	return m
@@ -422,6 +426,9 @@ func (h *hworld) Apply(ev string) {
 			}
 		}
 		h.held = nil
+	case "restart":
+		h.hist = h.hist[:len(h.hist)-1]
+		h.restart()
 	case "adv":
 		var ms int64
 		fmt.Sscan(parts[1], &ms)
@@ -932,7 +939,7 @@ var reTopicLine = regexp.MustCompile(`\[` + hTopic + `\s*\] depth: (\d+)\s+be-de
 func (h *hworld) Key() string {
 	now := h.now()
 	var sb strings.Builder
-	fmt.Fprintf(&sb, "ph%d|tp%v|held%v|n%d", (now-vrt.Epoch0)/1e6%500, h.tpaused, h.held, h.pubN)
+	fmt.Fprintf(&sb, "ph%d|tp%v|held%v|n%d|r%d", (now-vrt.Epoch0)/1e6%500, h.tpaused, h.held, h.pubN, h.restarts)
 	for _, cn := range []string{"c", "d"} {
 		c := h.chans[cn]
 		if c == nil || !c.created {
@@ -1105,6 +1112,7 @@ func RunHist(cfg HistCfg, hist []string, drain bool) HistRes {
 func (h *hworld) restart() {
 	old := h.w
 	old.Quiesce()
+	h.restarts++
 	h.hist = append(h.hist, "EXIT+RESTART")
 	old.N.Exit()
 	old.exited = true
